@@ -595,6 +595,112 @@ Qed.
 
 End Final.
 
+(* ------------------------------------------------------------------ no position is stored twice *)
+Lemma NoDup_flat_single {X Y} (c : X -> bool) (k : X -> Y) l :
+  NoDup l -> (forall a b, In a l -> In b l -> c a = true -> c b = true -> k a = k b -> a = b) ->
+  NoDup (flat_map (fun x => if c x then [k x] else []) l).
+Proof.
+  induction 1 as [|a l Ha Hl IH]; intros Hinj; simpl; [constructor|].
+  assert (IH' : NoDup (flat_map (fun x => if c x then [k x] else []) l)).
+  { apply IH. intros x y Hx Hy. apply Hinj; right; assumption. }
+  destruct (c a) eqn:Ca; simpl; [|exact IH'].
+  constructor; [|exact IH'].
+  intros Hin. apply in_flat_map in Hin. destruct Hin as [b [Hb Hin]].
+  destruct (c b) eqn:Cb; [|contradiction]. destruct Hin as [E|[]].
+  assert (a = b) by (apply Hinj; [left; reflexivity|right; exact Hb|exact Ca|exact Cb|symmetry; exact E]).
+  subst b. contradiction.
+Qed.
+
+Lemma addo_inj g o1 o2 c : all2 lt c g -> length o1 = length g -> length o2 = length g ->
+  validb g o1 c = true -> validb g o2 c = true -> addo c o1 = addo c o2 -> o1 = o2.
+Proof.
+  intros H. revert o1 o2. induction H as [|c0 g0 cs gs Hc H IH]; intros o1 o2 H1 H2 V1 V2 E.
+  - destruct o1; destruct o2; try discriminate; reflexivity.
+  - destruct o1 as [|a o1]; destruct o2 as [|b o2]; try discriminate.
+    cbn [validb addo] in *. apply andb_true_iff in V1. destruct V1 as [V1 V1'].
+    apply andb_true_iff in V1. destruct V1 as [A1 A2].
+    apply andb_true_iff in V2. destruct V2 as [V2 V2'].
+    apply andb_true_iff in V2. destruct V2 as [B1 B2].
+    apply Z.leb_le in A1. apply Z.leb_le in B1. inversion E as [[E0 Es]].
+    f_equal; [lia|]. apply IH; simpl in *; try lia; assumption.
+Qed.
+
+Section NoDupRows.
+Variable F : Type.
+Variable zero : F.
+Variable big : F -> bool.
+Hypothesis big_zero : big zero = false.
+Variables (st : list F) (g : list nat).
+Hypothesis Hg : allpos g.
+Hypothesis Hsym : pattern_symmetric F zero big st (length g).
+
+Theorem stencil_rows_nodup r : In r (csr_rows (stencil_grid F zero big st g)) -> NoDup (map fst r).
+Proof.
+  unfold stencil_grid. cbn [csr_rows]. intros Hr. apply in_map_iff in Hr. destruct Hr as [i [<- Hi]].
+  apply in_seq in Hi. destruct Hi as [_ Hi]. simpl in Hi.
+  set (d := length g) in *. set (n := 3 ^ d). set (N := nprod g) in *.
+  set (nz := nz_list F zero big st d).
+  unfold emit_row. cbv zeta.
+  rewrite map_flat_map.
+  rewrite (flat_map_ext_in _ (fun dd =>
+     if (let col := (nth dd (map (fun t => diag_of g (offs d t)) nz) 0 + Z.of_nat i + Z.of_nat 0)%Z in
+         let value := nth i (nth (length nz - dd - 1)
+              (map (fun t => zero_at F zero (seq_zero_pos N g (offs d t)) (repeat (nth t st zero) N)) nz) []) zero in
+         (0 <=? col)%Z && (col <? Z.of_nat N)%Z && big value)
+     then [Z.to_nat (nth dd (map (fun t => diag_of g (offs d t)) nz) 0 + Z.of_nat i + Z.of_nat 0)%Z] else []))
+    by (intros dd _; cbv zeta; match goal with |- context [if ?c then _ else _] => destruct c end; reflexivity).
+  assert (Hnz : NoDup nz) by (apply NoDup_filter, seq_NoDup).
+  apply NoDup_flat_single; [apply seq_NoDup|].
+  intros a b Ha Hb Ca Cb E. apply in_seq in Ha. apply in_seq in Hb. cbv zeta in Ca, Cb.
+  (* both guards hold: the mirrored rows are not zeroed at i, so both offsets are valid from i *)
+  assert (G : forall dd, dd < length nz ->
+     (let col := (nth dd (map (fun t => diag_of g (offs d t)) nz) 0 + Z.of_nat i + Z.of_nat 0)%Z in
+      let value := nth i (nth (length nz - dd - 1)
+              (map (fun t => zero_at F zero (seq_zero_pos N g (offs d t)) (repeat (nth t st zero) N)) nz) []) zero in
+      (0 <=? col)%Z && (col <? Z.of_nat N)%Z && big value) = true ->
+     nth dd nz 0 < n /\ validb g (offs d (nth dd nz 0)) (coords g i) = true /\
+     Z.to_nat (nth dd (map (fun t => diag_of g (offs d t)) nz) 0 + Z.of_nat i + Z.of_nat 0)%Z
+       = linear g (addo (coords g i) (offs d (nth dd nz 0)))).
+  { intros dd Hdd C. cbv zeta in C.
+    assert (Ht : nth dd nz 0 < n).
+    { assert (Hin : In (nth dd nz 0) nz) by (apply nth_In; exact Hdd).
+      unfold nz, nz_list in Hin. apply filter_In in Hin. destruct Hin as [Hin _]. apply in_seq in Hin. unfold n, d. lia. }
+    assert (Em : nth (length nz - dd - 1) nz 0 = n - 1 - nth dd nz 0).
+    { apply (nz_mirror (fun t => big (nth t st zero)) n dd); [|exact Hdd]. intros t Ht'. apply Hsym. exact Ht'. }
+    rewrite (nth_indep _ 0%Z (diag_of g (offs d 0))) in * by (rewrite map_length; lia).
+    rewrite (map_nth (fun t => diag_of g (offs d t)) nz 0 dd) in *.
+    rewrite (nth_indep _ [] (zero_at F zero (seq_zero_pos N g (offs d 0)) (repeat (nth 0 st zero) N))) in C
+      by (rewrite map_length; lia).
+    rewrite (map_nth (fun t => zero_at F zero (seq_zero_pos N g (offs d t)) (repeat (nth t st zero) N)) nz 0) in C.
+    rewrite Em in C. unfold N in C. rewrite data_seq_nth in C by assumption.
+    rewrite offs_rev in C by exact Ht.
+    pose proof (coords_lt g i Hg) as Hc.
+    rewrite zeroedb_opp in C by (try assumption; try apply offs_small; apply offs_length).
+    destruct (validb g (offs d (nth dd nz 0)) (coords g i)) eqn:V.
+    - split; [exact Ht|]. split; [reflexivity|].
+      destruct (valid_shift g (offs d (nth dd nz 0)) (coords g i) Hc (offs_length d _) V) as [E' A].
+      rewrite linear_coords, Nat.mod_small in E' by assumption.
+      rewrite diag_of_zlin by apply offs_length.
+      replace (zlin g (offs d (nth dd nz 0)) + Z.of_nat i + Z.of_nat 0)%Z
+        with (Z.of_nat (linear g (addo (coords g i) (offs d (nth dd nz 0))))) by lia.
+      apply Nat2Z.id.
+    - cbn [negb] in C. rewrite big_zero, andb_false_r in C. discriminate. }
+  destruct (G a ltac:(lia) Ca) as [Hta [Va Ka]]. destruct (G b ltac:(lia) Cb) as [Htb [Vb Kb]].
+  rewrite Ka, Kb in E.
+  pose proof (coords_lt g i Hg) as Hc.
+  destruct (valid_shift g _ _ Hc (offs_length d _) Va) as [_ Aa].
+  destruct (valid_shift g _ _ Hc (offs_length d _) Vb) as [_ Ab].
+  assert (Eadd : addo (coords g i) (offs d (nth a nz 0)) = addo (coords g i) (offs d (nth b nz 0))).
+  { rewrite <- (coords_linear g _ Aa), <- (coords_linear g _ Ab), E. reflexivity. }
+  apply (addo_inj g _ _ _ Hc (offs_length d _) (offs_length d _) Va Vb) in Eadd.
+  assert (Et : nth a nz 0 = nth b nz 0).
+  { destruct (proj1 (offs_eq_iff d (nth a nz 0) (offs d (nth b nz 0)) Hta (offs_length d _)) Eadd) as [_ Ea].
+    destruct (proj1 (offs_eq_iff d (nth b nz 0) (offs d (nth b nz 0)) Htb (offs_length d _)) eq_refl) as [_ Eb].
+    congruence. }
+  apply (proj1 (NoDup_nth nz 0) Hnz a b); [lia|lia|exact Et].
+Qed.
+End NoDupRows.
+
 (* ------------------------------------------------------------------ the library's own stencils are centrally symmetric *)
 Section MakersSym.
 Variable F : Type.
